@@ -143,7 +143,8 @@ RULE = ("Hypothesis draws TT specs (d 2..5(6), mode sizes 1..5, rank profiles ra
         "after a refill that changed the values, with k >= size or rank-1 content; "
         "scaled: the same with |scale| beyond 1e+-90; qtt_shapes: every case; long: d >= 30; qtt_big: the constructed optimum (qsum: the "
         "answer) has an index >= 256 in some mode and the tolerance is below half the gap to the next modulus; "
-        "distinct by SHA-1 of the case.")
+        "distinct by SHA-1 of the case."
+        " STORAGE (`storage`): tensors with small-integer cores (0..2, 1..9, -3..4; d 2..5; rank 1 or ranks 1..3; shapes [2^q]*d for optima_qtt) kept in int64 / int32 arrays (all cores, the first core, every other core) against the float64 copy: optima_tt / optima_tt_max / optima_tt_beam (both directions) / optima_qtt must return identical indices and values; non-trivial there = d >= 3 or rank >= 2.")
 TOLERANCES = ("validity: |y - dense[i]| <= 32*(d+sum r+max n)*eps*E(|cores|)[i] (== on small-integer cores); max-modulus under a "
               "full beam: tau = 9*K*eps*prod||G_k||_F (rank 1: 9*K*eps*max|Y|); opposite extremum: 2*tau + min(sqrt(t), t/(D-tau)), "
               "t = 8*K_Z*eps*prod(||G_k||_F^2 + n_k|y1|^(2/d)); optima_qtt: the same on the QTT image + 2*delta (measured QTT "
@@ -1914,6 +1915,56 @@ def prop_long(case, ctx):
         ctx.known("rank1-opposite-side", known)
 
 
+# ------------------------------------------------------------------------------------------- storage type of the cores
+
+@st.composite
+def storage_cases(draw, tier):
+    q = draw(st.sampled_from([0, 0, 1, 2]))                 # q > 0: shape [2^q]*d, optima_qtt is asked as well
+    d = draw(st.integers(2, 5 if q <= 1 else 4))
+    n = [2 ** q] * d if q else [draw(st.integers(1, 5)) for _ in range(d)]
+    rk = draw(st.sampled_from(["rank1", "rank1", "low", "low", "some"]))
+    r = [1] + [1 if rk == "rank1" else draw(st.integers(1, 3)) for _ in range(d - 1)] + [1]
+    return {"n": n, "r": r, "q": q, "seed": draw(gen.seeds), "lo": draw(st.sampled_from([0, 1, 1, -3])), "hi": draw(st.sampled_from([2, 4, 9])),
+            "store": draw(st.sampled_from(["int64", "int32", "first", "mixed"])), "k": draw(st.sampled_from([1, 3, 10, 100]))}
+
+
+def prop_storage(case, ctx):
+    """A tensor whose cores hold small integers (count tensors, 0/1 selectors), once with float64 cores and once with the same numbers in
+    integer arrays (all cores / the first core / every other core): every optimum search must return the same multi-indices and values.
+    What the float64 answer must be is settled by the other sub-checks."""
+    n, r, d = case["n"], case["r"], len(case["n"])
+    rng = np.random.default_rng(case["seed"])
+    Yf = [rng.integers(case["lo"], case["hi"] + 1, size=(r[k], n[k], r[k + 1])).astype(float) for k in range(d)]
+    for G in Yf:
+        if not np.any(G):
+            G[0, 0, 0] = 1.0
+    pick = {"int64": lambda k: np.int64, "int32": lambda k: np.int32, "first": lambda k: np.int64 if k == 0 else None,
+            "mixed": lambda k: np.int32 if k % 2 == 0 else None}[case["store"]]
+    Yi = [G.astype(pick(k)) if pick(k) else G.copy() for k, G in enumerate(Yf)]
+    keep = [G.copy() for G in Yi]
+    ctx.label("stored_as:" + case["store"], "rank1" if max(r) == 1 else "rank>=2", f"q={case['q']}", f"k={case['k']}")
+    ctx.nontrivial(d >= 3 or max(r) >= 2)
+
+    def flat(x):
+        if isinstance(x, (tuple, list)):
+            return [flat(v) for v in x]
+        if isinstance(x, np.ndarray):
+            return x.tolist()
+        return x.item() if hasattr(x, "item") else x
+
+    calls = [("optima_tt", lambda Y: teneva.optima_tt(Y, case["k"])), ("optima_tt_max", lambda Y: teneva.optima_tt_max(Y, case["k"])),
+             ("optima_tt_beam", lambda Y: teneva.optima_tt_beam(Y, case["k"])), ("optima_tt_beam(l2r=False)", lambda Y: teneva.optima_tt_beam(Y, case["k"], False))]
+    if case["q"]:
+        calls.append(("optima_qtt", lambda Y: teneva.optima_qtt(Y, case["k"])))
+    with np.errstate(all="ignore"):
+        for what, fn in calls:
+            a, b = flat(ctx.lib(fn, Yi)), flat(ctx.lib(fn, Yf))
+            ctx.check(a == b, f"{what}: the answer for integer-stored cores differs from that for the float64 copy of the same cores",
+                      stored=a, float64=b, store=case["store"], shape=n, ranks=r)
+            ctx.inner(1)
+    ctx.check(all(np.array_equal(a, b) and a.dtype == b.dtype for a, b in zip(Yi, keep)), "optimum search changed the (integer-stored) cores it was given")
+
+
 SUBCHECKS = [
     Sub("qtt_big", prop_qtt_big, strategy=qtt_big_cases, quick=40, thorough=300),
     Sub("long", prop_long, strategy=long_cases, quick=24, thorough=500),
@@ -1927,4 +1978,5 @@ SUBCHECKS = [
     Sub("qtt", prop_qtt, strategy=qtt_cases, quick=80, thorough=1200),
     Sub("qtt_shapes", prop_qtt_shapes, strategy=qtt_shape_cases, quick=40, thorough=400),
     Sub("func", prop_func, strategy=func_cases, quick=100, thorough=1500),
+    Sub("storage", prop_storage, strategy=storage_cases, quick=60, thorough=800),
 ]
